@@ -23,6 +23,13 @@
 (*  [ev |-> "fsync",  path]                                                 *)
 (*  [ev |-> "close",  path]                                                 *)
 (*  [ev |-> "return", key]              set returned to the caller          *)
+(*  [ev |-> "gbegin", key]              a GROUP of concurrent sets on key   *)
+(*                                      starts (first of them is called)    *)
+(*  [ev |-> "greturn", key, v, size]    the last set of the group returned; *)
+(*                                      the live store now reads value v    *)
+(* Concurrent sets on one key (an extension beyond the sequential           *)
+(* quantifier of C17): once all of them have returned, the value the live   *)
+(* store shows is the value that "has returned", so it must be durable.     *)
 (* The rule is evaluated after EVERY event, i.e. at every crash point.       *)
 (***************************************************************************)
 EXTENDS Integers, Sequences, FiniteSets
@@ -33,14 +40,16 @@ Empty  == <<0, 0>>
 MonInit(Paths) == [kern |-> [p \in Paths |-> Absent], dur |-> [p \in Paths |-> Absent],
                    loose |-> [p \in Paths |-> {}],
                    done |-> [p \in Paths |-> Absent],   \* last value whose set has returned
-                   inflight |-> "", want |-> Absent, bad |-> "ok"]
+                   inflight |-> "", want |-> Absent,
+                   ginfl |-> {},                          \* keys with a group of concurrent sets in flight
+                   bad |-> "ok"]
 
 Images(m, p) == {m.dur[p]} \cup m.loose[p]
 
 \* every key other than the one being written reads its last completed value in every crash image;
 \* the key being written is unconstrained until its set returns
 Durability(m) ==
-  \A p \in DOMAIN m.kern : p # m.inflight => Images(m, p) = {m.done[p]}
+  \A p \in DOMAIN m.kern : (p # m.inflight /\ p \notin m.ginfl) => Images(m, p) = {m.done[p]}
 
 Apply(m, e) ==
   CASE e.ev = "begin"  -> [m EXCEPT !.inflight = e.key, !.want = <<e.v, e.size>>]
@@ -53,11 +62,13 @@ Apply(m, e) ==
                                                         \cup (IF old = Absent THEN {} ELSE {old})]
     [] e.ev = "fsync"  -> [m EXCEPT !.dur[e.path] = m.kern[e.path], !.loose[e.path] = {}]
     [] e.ev = "return" -> [m EXCEPT !.done[e.key] = m.want, !.inflight = ""]
+    [] e.ev = "gbegin" -> [m EXCEPT !.ginfl = @ \cup {e.key}]
+    [] e.ev = "greturn" -> [m EXCEPT !.done[e.key] = <<e.v, e.size>>, !.ginfl = @ \ {e.key}]
     [] OTHER -> m          \* mkdir, close: no effect on file contents in this model
 
 Verdict(m2, e) ==
   IF ~Durability(m2)
-  THEN IF e.ev = "return" THEN "ReturnedButNotDurable" ELSE "OtherKeyHarmed"
+  THEN IF e.ev \in {"return", "greturn"} THEN "ReturnedButNotDurable" ELSE "OtherKeyHarmed"
   ELSE "ok"
 
 Step(m, e) ==
